@@ -305,7 +305,7 @@ impl Prop for C18 {
         "C18"
     }
     fn rule(&self) -> &'static str {
-        "cases = client identification strings 'SSH-' ('2.0'|'1.99') [0-9.]* '-' software [SP comment] CR LF [tail] with software 1..79 and comment 0..79 arbitrary bytes (NUL, high bytes, lone CR at every position, bare LF; SP switches to the comment), over UDP and over one segment of a handshaken TCP flow, both IP versions, log levels Off..Trace; negatives: every CR LF pair removed (nothing / LF only / trailing lone CR / LF LF), a character other than digit, dot or dash in the version field, missing second dash; Gh0st magic + 0..299 arbitrary bytes, Gh0st header with consistent / lying length fields, and real client packets (header + zlib stream of a command token followed by 0..419 structure bytes, login token 0x66 weighted, compression levels 0..9). Flows: a valid identification string followed on the same TCP flow by 1..4 segments that hold no CR and no LF (binary packets with KEXINIT-like framing, text, 'SSH-2.0-...' without line end), or an unterminated first segment followed by the same: only the identification string may be answered with an SSH banner. Gh0st connections: 2..3 packets, one per segment of one connection, each answered with a valid frame. Oracle: positive => application reply exactly 'SSH-2.0-1\\r\\n'; negative => none; Gh0st => reply starts with the magic, LE32 at offset 5 = frame length, LE32 at offset 9 = U, zlib-inflating the remainder (flate2's decoder, whole input consumed) yields exactly U bytes. Non-trivial = every case; distinct by hash of (bytes, transport)."
+        "cases = client identification strings 'SSH-' ('2.0'|'1.99') [0-9.]* '-' software [SP comment] CR LF [tail] with software 1..79 and comment 0..79 arbitrary bytes (NUL, high bytes, lone CR at every position, bare LF; SP switches to the comment), over UDP and over one segment of a handshaken TCP flow, both IP versions, log levels Off..Trace; negatives: every CR LF pair removed (nothing / LF only / trailing lone CR / LF LF), a character other than digit, dot or dash in the version field, missing second dash; Gh0st magic + 0..299 arbitrary bytes, Gh0st header with consistent / lying length fields, and real client packets (header + zlib stream of a command token followed by 0..419 structure bytes, login token 0x66 weighted, compression levels 0..9). Flows: a valid identification string followed on the same TCP flow by 1..4 segments that hold no CR and no LF (binary packets with KEXINIT-like framing, text, 'SSH-2.0-...' without line end), or an unterminated first segment followed by the same: only the identification string may be answered with an SSH banner. Gh0st connections: 2..3 packets, one per segment of one connection, each answered with a valid frame. Oracle: positive => application reply exactly 'SSH-2.0-1\\r\\n'; negative => none; Gh0st => reply starts with the magic, LE32 at offset 5 = frame length, LE32 at offset 9 = U, zlib-inflating the remainder (flate2's decoder, whole input consumed) yields exactly U bytes. Non-trivial = every case; distinct by hash of (bytes, transport). Shadow traffic (vf/shadow.rs): three cases in ten process, before every frame of the case, a sibling of that frame whose result is discarded — the same frame again, or one tuple element (source / destination port, source / destination address, source MAC), one payload bit or the payload length changed; TCP conversations are shadowed whole on a sibling flow validated with its own cookie; sound by the statement of C08, cases whose own flows meet a shadow tuple are excluded and counted."
     }
     fn run(&self, ctx: &mut RunCtx) {
         let n = ctx.share(ctx.tier.n(2_000_000, 16_000_000));
